@@ -75,6 +75,7 @@ def verify_contract(repo: str, con: Any, contracts_by_target: dict[str, Any], mo
                         unroll=4 if small else con.__dict__.get("unroll", 6))
         interp.open_findings = open_findings
         interp.spec_fallback_module = file
+        interp.small_instances = 5 if small else 0
         interp.abstract_sort = bool(con.__dict__.get("abstract_sort", False))
         interp.concrete_model = concrete_model
         for relname in con.__dict__.get("modules", []):
